@@ -13,6 +13,8 @@ package watcher
 //@ ghost lastFetched string
 //@ ghost nfetch int
 //@ ghost wakeups int
+//@ # scratchWasEmpty: was the pending set empty just before FileChanged recorded its directory
+//@ ghost scratchWasEmpty bool
 //@ pred monInv(p *Changes) := p.changed != nil && p.mods != nil &&
 //@        (forall d string :: has(p.changed, d) <==> unf[p][d]) &&
 //@        (forall d string :: fet[p][d] + b2i(unf[p][d]) <= rep[p][d])
@@ -20,11 +22,13 @@ package watcher
 //@
 //@ func (*Changes).FileChanged
 //@   requires p != nil && !held[p]
-//@   assigns held, unf, rep, fet, wakeups, mapof(p.changed), mapof(p.mods)
+//@   assigns held, unf, rep, fet, wakeups, scratchWasEmpty, mapof(p.changed), mapof(p.mods)
+//@   at entry set scratchWasEmpty = false
+//@   at mapupdate #1 set scratchWasEmpty = (before(len(p.changed)) == 0)
 //@   at mapupdate #1 set unf = store(unf, p, store(unf[p], dir, true))
 //@   at mapupdate #1 set rep = store(rep, p, store(rep[p], dir, rep[p][dir] + 1))
 //@   at call Broadcast#1 set wakeups = wakeups + 1
-//@   at return assert [wake-iff-was-empty] wakeups == old(wakeups) + (n == 0 ? 1 : 0)
+//@   at return assert [wake-iff-was-empty] wakeups == old(wakeups) + (scratchWasEmpty ? 1 : 0)
 //@   ensures [lock-released] held == old(held)
 //@
 //@ func (*Changes).Fetch
